@@ -230,6 +230,11 @@ func (mbs *metadataPartStorage) createRangeReader(ctx context.Context, tx databa
 		globalEnd = *endByte
 	}
 	if globalStart >= globalEnd {
+		// Reading the whole of a zero-length object is not a range request:
+		// it yields an empty body rather than InvalidRange.
+		if startByte == nil && endByte == nil {
+			return io.NopCloser(bytes.NewReader(nil)), nil
+		}
 		return nil, storage.ErrInvalidRange
 	}
 
